@@ -71,6 +71,12 @@ var httpMalformed = []string{
 	"method:GET", "method:PUT", "method:DELETE", "method:PATCH", "method:HEAD",
 }
 
+// requests cut short on the wire by a sender that dies mid-body (raw TCP, write side closed after a prefix)
+var cutMalformed = []string{
+	"cut:proto-boundaries", "cut:proto-random", "cut:proto-zero", "cut:json-random", "cut:json-zero",
+	"cut:chunked-boundary", "cut:chunked-all-data", "cut:gzip-short", "cut:gzip-short-stream", "cut:control-complete",
+}
+
 // (an unknown content-subtype is not in the list: grpc-go falls back to the proto codec for it, so the request is simply valid)
 var grpcMalformed = []string{"grpc:bad-length", "grpc:truncated", "grpc:bad-wiretype", "grpc:open-varint", "grpc:unknown-method"}
 
@@ -122,7 +128,7 @@ func buildCases(c *driver.Ctx) []caseSpec {
 			}
 		}
 		for _, sg := range signals {
-			for _, k := range httpMalformed {
+			for _, k := range append(append([]string{}, httpMalformed...), cutMalformed...) {
 				cs = append(cs, caseSpec{Env: "plain", Mode: "malformed", Client: clientSpec{"rawhttp", "http", "", "none", ""}, Signal: sg, Mal: k, Rep: rep})
 			}
 			for _, k := range grpcMalformed {
@@ -178,6 +184,7 @@ type job struct {
 	after    int64
 	panicked string
 	skip     string
+	cuts     []cutObs
 	// confirm-by-repetition
 	round        int
 	inconclusive bool
@@ -204,8 +211,8 @@ func (e *env) obs(j *job, name string, n int64) {
 // deterministicByNature: differences in delivered bytes and the whole-second truncation cannot be produced by a
 // disturbed connection (TCP delivers the bytes or fails), so they need no confirmation.
 func deterministicByNature(p pend) bool {
-	if p.sub == "payload" {
-		return true
+	if p.sub == "payload" || p.sub == "truncated-delivered" || p.sub == "truncated-accepted" {
+		return true // what the consumer received / a 2xx for an incomplete request is a fact no broken connection can produce
 	}
 	if p.sub == "throttle-delay" {
 		for i := 0; i+1 < len(p.sig); i += 2 {
@@ -408,7 +415,11 @@ func (e *env) execute(j *job) {
 	case "zero":
 		j.p = zeroItemPayload(j.rng, cs.Signal, id, cs.Zero)
 	case "malformed":
-		j.p = newPayload(j.rng, cs.Signal, id, "own")
+		fl := "own"
+		if strings.HasPrefix(cs.Mal, "cut:") {
+			fl = "multi"
+		}
+		j.p = newPayload(j.rng, cs.Signal, id, fl)
 	}
 	o := outcome{Kind: "nil"}
 	if cs.Mode == "direct" || cs.Mode == "retry" || cs.Mode == "repro" {
@@ -480,6 +491,8 @@ func (e *env) execMalformed(j *job) {
 	validProto, _ := requestBytes(j.p, "proto")
 	validJSON, _ := requestBytes(j.p, "json")
 	switch fam {
+	case "cut":
+		e.execCut(j, kind, validProto, validJSON)
 	case "proto":
 		j.hobs = e.rawHTTPDo("POST", cs.Signal, contentTypeOf["proto"], "", cs.Client.Cred, malformedProto(j.rng, validProto, kind))
 	case "json":
@@ -530,6 +543,56 @@ func (e *env) execMalformed(j *job) {
 	}
 }
 
+// execCut sends the requests of one "cut" case: a multi-resource payload, announced completely, transmitted in part.
+func (e *env) execCut(j *job, kind string, full, fullJSON []byte) {
+	sg := j.cs.Signal
+	ends := topLevelEnds(full) // offsets behind every Resource* entry, from the protobuf framing
+	if len(ends) < 3 || ends[len(ends)-1] != len(full) {
+		j.skip = "harness-cut-framing"
+		return
+	}
+	do := func(where, enc, ce, framing string, announced int, sent []byte) {
+		before := e.sink.calls()
+		o := e.rawTCPCut(sg, contentTypeOf[enc], ce, framing, announced, sent)
+		o.Where = where
+		o.Calls = e.sink.calls() - before
+		j.cuts = append(j.cuts, o)
+	}
+	inner := ends[:len(ends)-1]
+	switch kind {
+	case "proto-boundaries":
+		for _, end := range inner { // every boundary between two top-level entries
+			do("entry-boundary", "proto", "", "length", len(full), full[:end])
+		}
+	case "proto-random":
+		for i := 0; i < 3; i++ {
+			do("random-offset", "proto", "", "length", len(full), full[:1+j.rng.Intn(len(full)-1)])
+		}
+	case "proto-zero":
+		do("zero-bytes", "proto", "", "length", len(full), nil)
+	case "json-random":
+		for i := 0; i < 2; i++ {
+			do("random-offset", "json", "", "length", len(fullJSON), fullJSON[:1+j.rng.Intn(len(fullJSON)-1)])
+		}
+	case "json-zero":
+		do("zero-bytes", "json", "", "length", len(fullJSON), nil)
+	case "chunked-boundary":
+		do("entry-boundary", "proto", "", "chunked", -1, full[:inner[j.rng.Intn(len(inner))]])
+	case "chunked-all-data":
+		do("all-data-no-terminating-chunk", "proto", "", "chunked", -1, full)
+	case "gzip-short":
+		gz := handCompress("gzip", full)
+		do("compressed-stream-cut", "proto", "gzip", "length", len(gz), gz[:1+j.rng.Intn(len(gz)-1)])
+	case "gzip-short-stream":
+		gz := handCompress("gzip", full)
+		k := 1 + j.rng.Intn(len(gz)-1)
+		do("compressed-stream-cut(length consistent)", "proto", "gzip", "length", k, gz[:k])
+	case "control-complete":
+		// the same technique with nothing missing: must be accepted, otherwise the refusals above prove nothing
+		do("complete", "proto", "", "length", len(full), full)
+	}
+}
+
 // ------------------------------------------------------------------ oracle application
 
 // snap copies the witness map: the driver marshals recorded witnesses from its flush goroutine while the
@@ -567,6 +630,9 @@ func (e *env) witness(j *job) map[string]any {
 			j.hobs.ErrText = j.hobs.Err.Error()
 		}
 		w["http_response"] = j.hobs
+	}
+	if len(j.cuts) > 0 {
+		w["cut_requests"] = j.cuts
 	}
 	var rets []string
 	for _, r := range j.recs {
@@ -999,6 +1065,8 @@ func malformedHTTP(mal string) []int {
 func (e *env) evalMalformed(j *job, wit map[string]any, sig func(...string) []string) {
 	fam := strings.SplitN(j.cs.Mal, ":", 2)[0]
 	switch fam {
+	case "cut":
+		e.evalCut(j, wit, sig)
 	case "proto", "json", "encoding":
 		e.evalRefused(j, snap(wit), sig, "malformed", malformedHTTP(j.cs.Mal), nil)
 	case "both":
@@ -1024,6 +1092,59 @@ func (e *env) evalMalformed(j *job, wit map[string]any, sig func(...string) []st
 			e.obs(j, "refused_grpc_"+st.Code().String(), 1)
 			c.Distinct("grpc_codes_for_malformed", j.cs.Mal, st.Code().String())
 		}
+	}
+}
+
+// evalCut: a request whose body was cut short is incomplete, hence malformed: it never reaches the consumer and is
+// answered with a client-error status or not at all (connection closed) - never with a 2xx.
+func (e *env) evalCut(j *job, wit map[string]any, sig func(...string) []string) {
+	c := e.c
+	delivered := 0
+	for _, o := range j.cuts {
+		if o.Timeout {
+			j.inconclusive = true
+			if j.round == 0 {
+				c.Inconclusive("exchange-timeout")
+			}
+			continue
+		}
+		w := snap(wit)
+		w["cut_request"] = o
+		ks := sig("what", "truncated", "kind", j.cs.Mal, "cut", o.Where, "framing", o.Framing)
+		if o.Where == "complete" {
+			delivered++
+			if o.Status < 200 || o.Status > 299 || o.Calls != 1 || len(j.recs) != 1 || !bytes.Equal(j.recs[0].Bytes, j.p.canon) {
+				j.add("cut-control", fmt.Sprintf("the complete request sent with the raw-socket technique was not accepted and delivered as sent: status=%d consumer calls=%d err=%s", o.Status, o.Calls, o.ErrText), w, ks...)
+			} else {
+				e.obs(j, "cut_control_complete_request_delivered", 1)
+			}
+			continue
+		}
+		e.obs(j, "cut_requests", 1)
+		c.Distinct("cut_points", j.cs.Signal, o.Where, o.Framing)
+		bad := false
+		if o.Calls != 0 {
+			bad = true
+			j.add("truncated-delivered", fmt.Sprintf("a %s request announced with %d bytes of which only %d were sent (%s, %s) reached the consumer behind the receiver (%d calls)", j.cs.Signal, o.Announced, o.Offset, o.Where, o.Framing, o.Calls), w, ks...)
+		}
+		switch {
+		case o.Status >= 200 && o.Status <= 299:
+			bad = true
+			j.add("truncated-accepted", fmt.Sprintf("a %s request announced with %d bytes of which only %d were sent (%s, %s) was answered with HTTP %d", j.cs.Signal, o.Announced, o.Offset, o.Where, o.Framing, o.Status), w, ks...)
+		case o.NoResponse:
+			e.obs(j, "cut_requests_connection_closed_without_answer", 1)
+		case o.Status >= 400 && o.Status <= 499:
+			e.obs(j, "cut_requests_refused_"+fmt.Sprint(o.Status), 1)
+		default:
+			bad = true
+			j.add("client-error-status", fmt.Sprintf("truncated request (%s) answered with HTTP %d, want a client-error status or no answer", o.Where, o.Status), w, append(ks, "got", fmt.Sprint(o.Status))...)
+		}
+		if !bad && o.Where == "entry-boundary" {
+			e.obs(j, "cut_at_entry_boundary_refused", 1)
+		}
+	}
+	if len(j.recs) != delivered {
+		j.add("truncated-delivered", fmt.Sprintf("the consumer holds %d payloads of a request family in which %d complete requests were sent", len(j.recs), delivered), snap(wit), sig("what", "truncated", "kind", j.cs.Mal, "cut", "any", "framing", "any")...)
 	}
 }
 
@@ -1073,7 +1194,7 @@ func main() {
 	driver.Main(driver.Spec{
 		ID:    "C15",
 		Level: "exploration",
-		Rule: "a case is one exchange (or one retried exchange) through the real OTLP receiver: the complete grid {18 exporter configurations (gRPC x none/gzip/snappy/zstd; HTTP x proto/json x none/gzip/zlib/deflate/zstd/snappy/lz4) + 6 raw clients} x 4 signals x 106 consumer outcomes (nil, transient, permanent, 16 gRPC codes x RetryInfo {none,0,1s,7s,1.5s,300ms}, wrapped variants), the same grid with the retry sender enabled, zero-item shapes, 28 malformed-request kinds, and a second receiver with a server-side authenticator x {good, bad, missing credentials}; payloads come from a PRNG generator with unique ids (and pdata/testdata) per case; " +
+		Rule: "a case is one exchange (or one retried exchange) through the real OTLP receiver: the complete grid {18 exporter configurations (gRPC x none/gzip/snappy/zstd; HTTP x proto/json x none/gzip/zlib/deflate/zstd/snappy/lz4) + 6 raw clients} x 4 signals x 106 consumer outcomes (nil, transient, permanent, 16 gRPC codes x RetryInfo {none,0,1s,7s,1.5s,300ms}, wrapped variants), the same grid with the retry sender enabled, zero-item shapes, 28 malformed-request kinds, 9 kinds of requests cut short on the wire by a dying sender (raw TCP: full Content-Length announced, a prefix sent, write side closed - at every boundary between two top-level Resource* entries of a 3-5 resource payload, at random offsets, at 0 bytes; chunked without the terminating chunk; gzip stream cut) plus a complete control request, and a second receiver with a server-side authenticator x {good, bad, missing credentials}; payloads come from a PRNG generator with unique ids (and pdata/testdata) per case; " +
 			"distinct = (client kind, transport, encoding, compression, signal, mode, consumer outcome / malformed kind / zero shape, environment); every counted case is non-trivial (it crossed the socket and was decided by the oracle)",
 		Assumptions: []string{
 			"expectation tables are written from the OTLP specification and the property statement (oracle.go), not from the code; ResourceExhausted without RetryInfo over HTTP may be answered retryable (429) or not - the exporter must then agree with the status it received",
